@@ -313,6 +313,58 @@ def run_case(case):
             h = have if isinstance(have, str) else nz(dict(have), Poly.zero)
             if h != exp:
                 fails.append(_fail(f"solve_{side}(b) is the least solution", dict(inp0, b=bname), h, exp))
+    # ---- non-commutative weights (words over edge letters): the order of the factors in every
+    # product is observable, the property only assumes a closed semiring
+    from vf.semirings import NCPoly
+
+    NCPoly.D = 4 if n >= 4 else 5
+    if n <= 4:
+        NW = [NCPoly.var(k) for k in range(len(edges))]
+        A = {e: w for e, w in zip(edges, NW)}
+        C = {(i, i): NCPoly.one for i in range(n)}
+        P = dict(C)
+        for _ in range(NCPoly.D + 1):
+            NP = {}
+            for (i, k), u in P.items():
+                for (k2, j), v in A.items():
+                    if k2 != k:
+                        continue
+                    w = u * v
+                    if w == NCPoly.zero:
+                        continue
+                    NP[(i, j)] = NP[(i, j)] + w if (i, j) in NP else w
+            if not NP:
+                break
+            for k, v in NP.items():
+                C[k] = C[k] + v if k in C else v
+            P = NP
+        wantnc = {k: v for k, v in C.items() if v != NCPoly.zero}
+        for name, f in (("closure_scc_based", lambda G: G.closure_scc_based()), ("closure_reference", lambda G: G.closure_reference())):
+            have = _call(lambda: f(build(NCPoly, n, edges, NW)))
+            evals += 1
+            h = have if isinstance(have, str) else nz(dict(have), NCPoly.zero)
+            if h != wantnc:
+                fails.append(_fail(f"{name} == sum of all powers (non-commutative weights)", dict(inp0, method=name), h, wantnc))
+        bnc = {i: NCPoly.var(20 + i) for i in range(n)}
+        for side in ("left", "right"):
+            G = build(NCPoly, n, edges, NW)
+            bc = NCPoly.chart()
+            for i, v in bnc.items():
+                bc[i] = v
+            have = _call((G.solve_left if side == "left" else G.solve_right), bc)
+            evals += 1
+            exp = {}
+            for (i, j), c in wantnc.items():
+                if side == "left":
+                    w = bnc[i] * c
+                    exp[j] = exp[j] + w if j in exp else w
+                else:
+                    w = c * bnc[j]
+                    exp[i] = exp[i] + w if i in exp else w
+            exp = {k: v for k, v in exp.items() if v != NCPoly.zero}
+            h = have if isinstance(have, str) else nz(dict(have), NCPoly.zero)
+            if h != exp:
+                fails.append(_fail(f"solve_{side}(b) is the least solution (non-commutative weights)", dict(inp0), h, exp))
     # ---- decomposition
     G = build(Poly, n, edges, W)
     blocks = _call(lambda: G.blocks)
